@@ -582,6 +582,12 @@ class Life:
                 self.v("C15.a", ("trade", "identity", origin), "get_trade does not return the order's trade")
             if b.has_trade(o.trade) is not True:
                 self.v("C15.a", ("trade", "missing", origin), "has_trade false for a placed order's trade")
+            # the by-trade view (named in the statement; held in Blotter._trades - read defensively)
+            by_trade = getattr(b, "_trades", None)
+            if by_trade is not None:
+                once("trade", by_trade.get(o.trade, []), o, origin)
+            else:
+                self.c("by_trade_view_not_evaluated")
             if origin == "replacement":
                 self.c("replacement_orders_seen")
                 if o.bet_id is not None and b.get_order_bet_id(o.bet_id) is not o:
